@@ -392,11 +392,52 @@ def _twin(obj, make):
     return t[1]
 
 
+def library_owned_primitives():
+    """Real Queue / Event / Barrier objects that the LIBRARY created at import time and keeps reachable from its modules:
+    module globals, class attributes, default values of parameters (also inside dicts, lists and tuples).  They were built
+    before the installer could replace the names, so they are found by identity and routed to simulated twins as well."""
+    import queue as _queue
+    import sys
+    import threading as _threading
+    import types
+    kinds = (_queue.Queue, _threading.Event, _threading.Barrier)
+    found = {}
+
+    def visit(v, depth=0):
+        if isinstance(v, kinds):
+            found[id(v)] = v
+        elif depth < 3 and isinstance(v, dict):
+            for x in list(v.values()):
+                visit(x, depth + 1)
+        elif depth < 3 and isinstance(v, (list, tuple, set, frozenset)):
+            for x in list(v):
+                visit(x, depth + 1)
+
+    def visit_func(f):
+        f = getattr(f, '__func__', f)
+        if isinstance(f, types.FunctionType):
+            visit(f.__defaults__ or ())
+            visit(f.__kwdefaults__ or {})
+
+    for name, mod in list(sys.modules.items()):
+        if mod is None or not (name == 'bridge_env' or name.startswith('bridge_env.')):
+            continue
+        for v in list(vars(mod).values()):
+            visit(v)
+            visit_func(v)
+            if isinstance(v, type) and (v.__module__ or '').startswith('bridge_env'):
+                for w in list(vars(v).values()):
+                    visit(w)
+                    visit_func(w)
+    return found
+
+
 def route_real_primitives():
     """Returns an undo function."""
     import queue as _queue
     import threading as _threading
     saved = []
+    owned = library_owned_primitives()
 
     def route(cls, name, make, call):
         orig = cls.__dict__.get(name)
@@ -404,9 +445,9 @@ def route_real_primitives():
             return
 
         def wrapper(self, *a, **kw):
-            # only SUBCLASSES defined by the library are routed: the interpreter itself uses plain Event/Queue objects
+            # only SUBCLASSES defined by the library, and objects the library built at import time, are routed: the interpreter itself uses plain Event/Queue objects
             # (Thread.start() waits on one), and those must keep their real behaviour
-            if type(self) is not cls and (type(self).__module__ or '').startswith('bridge_env'):
+            if (type(self) is not cls and (type(self).__module__ or '').startswith('bridge_env')) or id(self) in owned:
                 k = K()
                 if k is not None and k.current() is not None:
                     return call(_twin(self, lambda: make(self)), *a, **kw)
